@@ -77,7 +77,7 @@ CHECKS = {
             'query of C27.', '6 C09'),
     'C10': (TV, 'A', 'SMT/SAT equivalence of the real cardinality CNF against pseudo-Boolean reference; '
                      'definability closure for exists-aux; uniqueness miter',
-            'For every n<=10 (thorough 20), k<=n+3, EQ/LT/GT and three variable-list shapes, the clause list from the real '
+            'For every n<=10 (thorough 24), k<=n+3, EQ/LT/GT and three variable-list shapes, the clause list from the real '
             'combine_cnf_with_requests is proved (unsat) sound, complete and uniquely extensible over all 2^n input '
             'assignments; counterexamples are replayed through cnf_is_satisfiable.',
             'Trusts z3 5.1 and CryptoMiniSat, the 150-line closure/glue in vf/sat.py, and the reading LT=fewer than k, '
@@ -94,7 +94,7 @@ CHECKS = {
                      'independent unary counter above 12 inputs); closure for totality; uniqueness miter',
             'Each builder of core/cnf.py is called with concrete input variables and its clauses are proved to force the '
             'outputs to the binary (saturating) sum for every input assignment, to be extensible for every input and to '
-            'leave no other freedom; widths up to 6/8, pop counts up to 12/20 inputs, saturate_at 0..6.',
+            'leave no other freedom; widths up to 6/8, pop counts up to 12/24 inputs, saturate_at 0..6.',
             'Saturating specification: top bit set iff true sum >= 2^(saturate_at-1), exact when clear (what '
             'assert_k_of_n relies on). Trusts z3/CryptoMiniSat and vf/sat.py.', '6 C12'),
     'C13': (OT, 'B', 'CrossHair bounded symbolic execution of the real unranking functions with the index symbolic; '
